@@ -546,6 +546,29 @@ class ConstantScoreWrapperMatcher(WrappingMatcher):
     def _replacement(self, newchild):
         return self.__class__(newchild, score=self._score)
 
+    def supports_block_quality(self):
+        return True
+
+    def replace(self, minquality=0):
+        # The child's quality is unrelated to the constant score
+        if not self.child.is_active():
+            return mcore.NullMatcher()
+        elif minquality and self._score < minquality:
+            return mcore.NullMatcher()
+        r = self.child.replace()
+        if r is not self.child:
+            return self._replacement(r)
+        return self
+
+    def skip_to_quality(self, minquality):
+        # Every posting has the same score
+        skipped = 0
+        if self._score <= minquality:
+            while self.child.is_active():
+                self.child.next()
+                skipped = 1
+        return skipped
+
     def max_quality(self):
         return self._score
 
